@@ -43,6 +43,7 @@ PLEN_53 == <<5, 3>>
 REQS_A == {<<0,1,2>>, <<0,1,3>>, <<0,3,2>>, <<0,0,0>>, <<0,0,4>>, <<1,0,2>>, <<2,0,1>>}
 NONE == {}
 REQS_Q == {<<0,1,2>>, <<0,1,3>>}
+REQS_1 == {<<0,1,2>>}
 REQS_B == {<<0,1,2>>, <<0,0,2>>}
 REQS_C == {<<0,1,3>>, <<0,2,3>>, <<1,0,3>>, <<1,1,3>>, <<0,4,2>>}
 
